@@ -257,7 +257,9 @@ func runCase(c *rig.Ctx, cs Case, record bool, inf *info) bool {
 				continue
 			}
 			seenKey[key] = true
-			clusters.VerifSetCursor(w.CI, key, sc.C)
+			if !clusters.VerifSetCursor(w.CI, key, sc.C) {
+				continue // the representation of the cursors is not recognised: no preset
+			}
 			lbModel = append(lbModel, lib.LbEnt{Key: w.Idents(o), C: sc.C})
 		}
 	}
@@ -358,6 +360,11 @@ func runCase(c *rig.Ctx, cs Case, record bool, inf *info) bool {
 		msg, panicked := rig.Recover(func() {
 			pickers := map[int]clusters.EndpointPicker{}
 			for _, pol := range cs.Picks {
+				if (pol <= -1000 || pol >= len(cs.Setup[0].Policies)) && !w.CursorsVisible() {
+					// probes-move-no-cursor and PickOne's order are read off the cursors: not observable in this representation
+					c.Count("skipped:cursors-not-visible")
+					continue
+				}
 				if pol <= -1000 {
 					// a probe that changes nothing: same answer as before (reason / message of the status differ from probe to
 					// probe); no cursor may move, no cursor may be dropped
@@ -516,7 +523,7 @@ func runCase(c *rig.Ctx, cs Case, record bool, inf *info) bool {
 		e.Scope = "pickone:"
 		m.Lb = append(m.Lb, e)
 	}
-	if a, b := lib.CanonLb(m.Lb), lib.CanonLb(lbAfter); a != b {
+	if a, b := lib.CanonLb(m.Lb), lib.CanonLb(lbAfter); a != b && w.CursorsVisible() {
 		return fail("diff", "c14.cursors", fmt.Sprintf("final cursors: model [%s], code [%s]", a, b), nil, nil)
 	}
 	return true
